@@ -113,6 +113,7 @@ func (p *Program) CheckClause(c *Contract, cl *Clause, pos token.Pos, sc *clause
 		}
 		return nil
 	}, bound)
+	expr = p.localizePkgNames(expr, sc, pos)
 	cl.Expr = expr
 	err := types.CheckExpr(p.Fset, sc.pkg, pos, expr, p.CInfo)
 	if err != nil {
@@ -1515,4 +1516,90 @@ func (e *Exec) jsonOf(v Term) Term {
 	e.Ctx.DeclareFun(name, []string{v.Sort}, SBytes)
 	e.Assumed["encoding/json: Unmarshal(Marshal(v)) restores v for the struct types used (assumed contract on the dependency)"] = true
 	return app(SBytes, name, v)
+}
+
+
+// localizePkgNames: contract clauses name packages as the contract file's `//@ import` lines do (and as the ghost
+// file does). A source file may import the same package under another name (e.g. `cm ".../common"`): package
+// qualifiers are rewritten to the name the file at pos uses, so the clause type-checks at its position.
+func (p *Program) localizePkgNames(x ast.Expr, sc *clauseScope, pos token.Pos) ast.Expr {
+	pkg := p.Pkgs[sc.pkg.Path()]
+	pc := p.PC[sc.pkg.Path()]
+	if pkg == nil || pc == nil || !pos.IsValid() {
+		return x
+	}
+	var file *ast.File
+	for _, f := range pkg.Syntax {
+		if f.Pos() <= pos && pos <= f.End() {
+			file = f
+		}
+	}
+	if file == nil {
+		return x
+	}
+	// names used by the contract file: default name = last path element
+	ghost := map[string]string{} // name -> path
+	for _, im := range pc.Imports {
+		fs := strings.Fields(im)
+		path := strings.Trim(fs[len(fs)-1], "\"")
+		name := path
+		if i := strings.LastIndex(path, "/"); i >= 0 {
+			name = path[i+1:]
+		}
+		if len(fs) == 2 {
+			name = fs[0]
+		}
+		ghost[name] = path
+	}
+	local := map[string]string{} // path -> name in this file
+	names := map[string]string{} // name -> path in this file
+	for _, im := range file.Imports {
+		path := strings.Trim(im.Path.Value, "\"")
+		name := path
+		if i := strings.LastIndex(path, "/"); i >= 0 {
+			name = path[i+1:]
+		}
+		if ip := pkg.Imports[path]; ip != nil && ip.Name != "" {
+			name = ip.Name
+		}
+		if im.Name != nil {
+			name = im.Name.Name
+		}
+		local[path] = name
+		names[name] = path
+	}
+	ren := map[string]string{}
+	for name, path := range ghost {
+		if names[name] == path {
+			continue
+		}
+		if ln, ok := local[path]; ok && ln != "_" && ln != "." {
+			ren[name] = ln
+		}
+	}
+	if len(ren) == 0 {
+		return x
+	}
+	var walk func(n ast.Expr) ast.Expr
+	b := map[string]int{}
+	walk = func(n ast.Expr) ast.Expr {
+		return substSelectorPkgs(n, ren, b)
+	}
+	return walk(x)
+}
+
+// substSelectorPkgs renames the package identifier of qualified identifiers pkg.Name.
+func substSelectorPkgs(x ast.Expr, ren map[string]string, bound map[string]int) ast.Expr {
+	return substIdentsSel(x, ren)
+}
+
+func substIdentsSel(x ast.Expr, ren map[string]string) ast.Expr {
+	// reuse substIdents for the traversal: a package name can only occur as the X of a selector, and a local of the
+	// same name would shadow it in the clause as well (contracts avoid that); selectors are rebuilt by substIdents
+	return substIdents(x, func(id *ast.Ident) ast.Expr {
+		if to, ok := ren[id.Name]; ok && id.Obj == nil {
+			return ast.NewIdent(to)
+		}
+		return nil
+	}, map[string]int{})
 }
